@@ -336,8 +336,22 @@ func Run(rep *hx.Report, props Props, tier string, sh hx.Shard, deadline time.Ti
 		for _, m := range c12sizes {
 			al := Alphabet(m)
 			lims := [][2]uint64{{m, m}, {3, 4}}
+			// warriors as long as the core, and one cell shorter: the image
+			// meets itself around the core end
+			var full [][]g.Instruction
+			for k := 0; k < len(al); k++ {
+				for _, L := range []int{int(m), int(m) - 1} {
+					p := make([]g.Instruction, L)
+					for i := range p {
+						p[i] = al[(k+3*i)%len(al)]
+					}
+					full = append(full, p)
+				}
+			}
+			r.singles(m, full, lims, 12)
+			r.pairs(m, [][]g.Instruction{full[0], full[1], full[6], full[7], {al[1]}, {al[3]}}, []uint64{2}, []uint64{12}, lims[:1], false)
 			if thorough {
-				rep.Bound = "M in {8,5,13}, limits (M,M) and (3,4): all programs of length 1..2 over the 20 letters and of length 3 over 10 letters alone; all ordered pairs of programs of length 1..2 over 14 letters x every offset x every entry point at P=2, and over 8 letters at P in {1,3}; all triples over 10 letters x all offset pairs; each x every shift in [0,M) x offset spellings off+jM, j in 0..2, and the largest one below 2^64"
+				rep.Bound = "M in {8,5,13}, limits (M,M) and (3,4): all programs of length 1..2 over the 20 letters and of length 3 over 10 letters alone; all ordered pairs of programs of length 1..2 over 14 letters x every offset x every entry point at P=2, and over 8 letters at P in {1,3}; all triples over 10 letters x all offset pairs; 40 warriors of length M and M-1 alone and 6 of them in pairs; each x every shift in [0,M) x offset spellings off+jM, j in 0..2, and the largest one below 2^64"
 				r.singles(m, Programs(al, len(al), 2), lims, 12)
 				r.singles(m, Programs(al, 10, 3)[110:], lims[:1], 12) // the 1000 three-instruction programs over 10 letters
 				r.pairs(m, Programs(al, 14, 2), []uint64{2}, []uint64{12}, lims, true)
@@ -345,7 +359,7 @@ func Run(rep *hx.Report, props Props, tier string, sh hx.Shard, deadline time.Ti
 				r.triples(m, al, 10, []uint64{2}, 10, lims[:1])
 				rep.Bound += "; eight complete warriors of 1..10 instructions alone, in every ordered pair at two spacings and in triples on cores of 64 (every shift), 257 and 4096 cells (shifts 1, 65535, 65536, 65537, M-1, M, M+1, 3M+7 and a multiple of M just below 2^64), process limits 8 and 300, 3000 cycles; a 70001-cell core with offsets around 2^16"
 			} else {
-				rep.Bound = "M in {8,5}, limits (M,M) and (3,4): all programs of length 1..2 over the 20-letter alphabet and of length 3 over 6 letters alone (first and last instruction as entry point); all ordered pairs of programs of length 1..2 over 6 letters x every offset at P=2; all triples over 5 letters; each x every shift x 4 offset spellings (off+jM for j in 0..2 and the largest one below 2^64)"
+				rep.Bound = "M in {8,5}, limits (M,M) and (3,4): all programs of length 1..2 over the 20-letter alphabet and of length 3 over 6 letters alone (first and last instruction as entry point); all ordered pairs of programs of length 1..2 over 6 letters x every offset at P=2; all triples over 5 letters; 40 warriors of length M and M-1 alone and 6 of them in pairs; each x every shift x 4 offset spellings (off+jM for j in 0..2 and the largest one below 2^64)"
 				r.singles(m, Programs(al, len(al), 2), lims, 10)
 				r.singles(m, Programs(al, 6, 3)[42:], lims[:1], 10) // the 216 three-instruction programs over 6 letters
 				r.pairs(m, Programs(al, 6, 2), []uint64{2}, []uint64{10}, lims, true)
